@@ -170,7 +170,7 @@ def run(res: Result, scenarios: list[str], keep: dict, oracle, label: str = ""):
     # every scenario (every second one in the quick tier) also runs on the real node under the alternative schedule in
     # which writer and I/O loop run as soon as a message is queued; those runs are judged by the direct oracle only
     plain = [l for l in scenarios if ";eager=1" not in l.split("|")[0] and "during=" not in l.split("|")[0] and "midroute=" not in l.split("|")[0]
-             and "midconnect=" not in l.split("|")[0] and "| busy " not in l]
+             and "midconnect=" not in l.split("|")[0] and "| busy " not in l and "| rxn " not in l]
     step = 1 if (res.tier != "quick" or os.environ.get("VERIF_EAGER_ALL") == "1") else 2
     have = set(scenarios)
     scenarios = scenarios + [e for e in (eager(l) for l in plain[::step]) if e not in have]
@@ -195,7 +195,7 @@ def run(res: Result, scenarios: list[str], keep: dict, oracle, label: str = ""):
         pr, pm = project(r, keep), project(m, keep)
         pr = [re.sub(r"\bfail[A-Z]\b", "fail", x) if x.startswith("EV") else x for x in pr]    # (the echoed event text)
         if ";eager=1" in line.split("|")[0] or "during=" in line.split("|")[0] or "midroute=" in line.split("|")[0] \
-                or "midconnect=" in line.split("|")[0] or "| busy " in line:
+                or "midconnect=" in line.split("|")[0] or "| busy " in line or "| rxn " in line:
             continue            # alternative schedule of the real node: direct oracle only (the model is sequential)
         if pr != pm:
             i = next((k for k, (a, b) in enumerate(zip(pr, pm)) if a != b), min(len(pr), len(pm)))
